@@ -1,7 +1,7 @@
 """Shared pipeline of C07 / C08 / C11 (the administrative life cycle of a node).
 
 1. TLC checks Life.tla (two administrators with their own root CAs, two fabric slots, PASE / fail-safe / CSR / root /
-   AddNOC / label write / CommissioningComplete / RemoveFabric / fail-safe expiry by timer and by ArmFailSafe(0) /
+   AddNOC / CSRRequest-for-update / UpdateNOC / label write / CommissioningComplete / RemoveFabric / fail-safe expiry by timer and by ArmFailSafe(0) /
    lazily persisted resumption cache / power cut and start-up from the store) exhaustively up to 13 operations in its
    repaired variant against NoOldSessionOnNewFabric, NoOldResumptionOnNewFabric (C07), NeverStuck, RollbackRestores
    (C08), CommittedSurvives (C11); sensitivity: the variant transcribed from the code as it was found must violate them.
@@ -71,6 +71,21 @@ def made():
     # a removed fabric's resumption record is still in the store at the power cut; the index is re-used
     s.append([com(1), rd(1), w(3000), C(1, "remove", idx=1), {"op": "Restart"}, com(2), rd(2), rd(1), rd(1, False)])
     s.append([com(1), rd(1), w(3000), {"op": "Restart"}, C(1, "remove", idx=1), {"op": "Restart"}, com(2), rd(1), rd(2)])
+    # UpdateNOC: a new operational certificate under the fail-safe - rolled back by the timer, by ArmFailSafe(0), by a power
+    # cut; committed; out of order; mixed with the commands that add a fabric; from another administrator
+    upd = [C(1, "arm"), C(1, "csru"), C(1, "unoc")]
+    s.append([com(1)] + upd + [w(61000), rd(1), {"op": "Restart"}, rd(1)])
+    s.append([com(1)] + upd + [C(1, "arm0"), rd(1), {"op": "Restart"}, rd(1)])
+    s.append([com(1)] + upd + [{"op": "Restart"}, rd(1), w(3000), {"op": "Restart"}, rd(1)])
+    s.append([com(1)] + upd + [C(1, "complete"), w(3000), rd(1), {"op": "Restart"}, rd(1)] + upd + [w(61000), rd(1)])
+    s.append([com(1)] + upd + [C(1, "label"), C(1, "complete"), w(3000), {"op": "Restart"}, rd(1)])
+    s.append([com(1), com(2)] + upd + [C(2, "label"), rd(2), w(61000), rd(1), rd(2), {"op": "Restart"}, rd(1), rd(2)])
+    for order in (["unoc"], ["csr", "unoc"], ["csru", "root", "unoc"], ["csru", "unoc", "unoc"], ["csru", "csru", "unoc"], ["csru", "csr", "root", "noc"],
+                  ["csr", "csru", "root", "noc"], ["root", "csru", "unoc"], ["csru", "unoc", "csr", "root", "noc"]):
+        s.append([com(1), C(1, "arm")] + [C(1, x) for x in order] + [w(61000), rd(1)])
+    s.append([com(1), {"op": "Pase", "c": 2}, C(2, "csru", via="pase"), C(2, "unoc", via="pase"), C(2, "csr", via="pase"), w(61000), rd(1)])
+    s.append([com(1), com(2), C(1, "arm"), C(2, "csru"), C(1, "csru"), C(2, "unoc"), C(1, "unoc"), C(2, "complete"), C(1, "complete"), w(3000), {"op": "Restart"}, rd(1), rd(2)])
+    s.append([com(1), com(2), C(1, "arm"), C(1, "csru"), C(1, "unoc"), C(2, "remove", idx=1), w(70000), rd(2), rd(1)])
     # every history once more with administrators that use different node ids
     return s + [[{"op": "Config", "ids": "diff"}] + x for x in s]
 
@@ -93,7 +108,7 @@ def foreign_pase(r):
                 armed_by = None
             prev_armed = a
     return (last is not None and last.get("op") == "Cmd" and last.get("via") == "pase" and armed_by is not None
-            and armed_by[1] == "pase" and armed_by[0] != last.get("c") and last.get("cmd") in ("arm", "arm0", "csr", "root", "noc"))
+            and armed_by[1] == "pase" and armed_by[0] != last.get("c") and last.get("cmd") in ("arm", "arm0", "csr", "root", "noc", "csru", "unoc"))
 
 def signature(pid, r):
     e = r["event"]
